@@ -96,7 +96,7 @@ def _map_names(x, vf, pf):
 
 def rename(prog, r, variables=True, predicates=True):
   """(text, {old predicate: new predicate}) with variables and predicates consistently renamed."""
-  suffix = r.choice(['_q', '_zz', '_1x'])
+  suffix = r.choice(['q', 'zz', '1x'])   # never produce the reserved prefix x_
   vf = (lambda v: v + suffix) if variables else (lambda v: v)
   pmap = {}
   if predicates:
@@ -264,3 +264,80 @@ def styled(prog, style, needs):
   if needs and not any(n in s for n in needs):
     return None
   return G.p_program(prog, style=style)
+
+
+def _vars_of(x, acc, inside=False, only_inside=False):
+  """Variable names of an AST fragment; only_inside: those occurring inside combines / negations."""
+  if isinstance(x, tuple):
+    if x and x[0] == 'var':
+      if inside or not only_inside:
+        acc.add(x[1])
+      return acc
+    ins = inside or (bool(x) and x[0] in ('combine', 'not'))
+    for y in x:
+      _vars_of(y, acc, ins, only_inside)
+  elif isinstance(x, list):
+    for y in x:
+      _vars_of(y, acc, inside, only_inside)
+  return acc
+
+
+def capture_bait(prog, r):
+  """Pure renaming that provokes variable capture under injection: a caller's variable that is passed to a
+  predicate is given the name of a variable local to a combine / negation of that predicate's rule."""
+  locals_of = {}
+  for d in prog:
+    if d.get('ext') or len(d['rules']) != 1:
+      continue
+    rule = d['rules'][0]
+    inside = _vars_of((rule['head'], rule.get('body')), set(), only_inside=True)
+    outside = set()
+
+    def outer(x):
+      if isinstance(x, tuple):
+        if x and x[0] == 'var':
+          outside.add(x[1])
+        elif x and x[0] in ('combine', 'not'):
+          return
+        else:
+          for y in x:
+            outer(y)
+      elif isinstance(x, list):
+        for y in x:
+          outer(y)
+    outer((rule['head'], rule.get('body')))
+    loc = sorted(inside - outside)
+    if loc:
+      locals_of[d['name']] = loc
+  if not locals_of:
+    return None
+  changed = False
+  out = []
+  for d in prog:
+    rules = []
+    for rule in d['rules']:
+      names = _vars_of((rule['head'], rule.get('body')), set())
+      ren = {}
+
+      def see(x):
+        if isinstance(x, tuple):
+          if x and x[0] in ('atom', 'call') and x[1] in locals_of:
+            for f, e in x[2]:
+              if e[0] == 'var' and e[1] not in ren:
+                cands = [l for l in locals_of[x[1]] if l not in names and l not in ren.values()]
+                if cands:
+                  ren[e[1]] = r.choice(cands)
+          for y in x:
+            see(y)
+        elif isinstance(x, list):
+          for y in x:
+            see(y)
+      see(rule.get('body'))
+      if ren:
+        changed = True
+        f = lambda y: ('var', ren.get(y[1], y[1])) if y and y[0] == 'var' else y
+        rule = dict(rule, head=[(fl, _walk(hv, f)) for fl, hv in rule['head']],
+                    body=_walk(rule.get('body'), f) if rule.get('body') is not None else None)
+      rules.append(rule)
+    out.append(dict(d, rules=rules))
+  return G.p_program(out) if changed else None
